@@ -8,7 +8,8 @@ import glob, json, os, re, shutil, subprocess, sys
 
 pid, src = sys.argv[1], sys.argv[2]
 checks = sys.argv[3:] or [pid]
-wt = "/tmp/seed-%s" % pid
+tag = os.environ.get("SEED_TAG", "")
+wt = "/tmp/seed-%s%s" % (pid, tag)
 PY = "/venv/bin/python"
 
 
@@ -18,9 +19,9 @@ def sh(cmd, **kw):
 
 sh("git -C /repo worktree remove --force %s" % wt)
 sh("git -C /repo worktree add --detach %s HEAD" % wt)
-env = dict(os.environ, PYTHONPATH=wt + "/src", XDG_CACHE_HOME="/tmp/seed-%s-cache" % pid, PYTHONHASHSEED="0")
+env = dict(os.environ, PYTHONPATH=wt + "/src", XDG_CACHE_HOME="/tmp/seed-%s%s-cache" % (pid, tag), PYTHONHASHSEED="0")
 for m in sorted(glob.glob(os.path.join(src, "m*"))):
-    name = "%s-%s" % (pid, os.path.basename(m))
+    name = "%s-%s%s" % (pid, (tag + "-") if tag else "", os.path.basename(m))
     meta = json.load(open(os.path.join(m, "meta.json")))
     out = {"property": pid, "summary": meta.get("summary"), "needs": meta.get("needs"), "files": meta.get("files")}
     r = sh("git -C %s apply %s" % (wt, os.path.join(m, "patch.diff")))
@@ -62,4 +63,4 @@ for m in sorted(glob.glob(os.path.join(src, "m*"))):
     print(json.dumps({name: {k: out.get(k) for k in ("confirmed", "suite", "demo_with_change", "demo_without_change")},
                       "checks": {c: (v["exit"], v["violations"], v["with_failing_input"]) for c, v in out.get("checks", {}).items()}}))
 sh("git -C /repo worktree remove --force %s" % wt)
-shutil.rmtree("/tmp/seed-%s-cache" % pid, ignore_errors=True)
+shutil.rmtree("/tmp/seed-%s%s-cache" % (pid, tag), ignore_errors=True)
